@@ -434,6 +434,13 @@ func (nfs *Nfs) doCreate(dfh nfstypes.Nfs_fh3, name nfstypes.Filename3, kind nfs
 		}
 	}
 	if kind == nfstypes.NF3LNK {
+		if uint64(len(data)) > maxWrite {
+			// does not fit one journal transaction; a commit that the journal
+			// refuses would also stop later COMMITs from flushing anything
+			nfs.doDecLink(op, ip)
+			err = nfstypes.NFS3ERR_NAMETOOLONG
+			return
+		}
 		_, ok := ip.Write(op.Atxn, uint64(0), uint64(len(data)), data)
 		if !ok {
 			nfs.doDecLink(op, ip)
